@@ -88,12 +88,35 @@ def build_zip(tape):
     buf = io.BytesIO()
     members = []
     with zipfile.ZipFile(buf, "w", zipfile.ZIP_DEFLATED) as zf:
-        for i in range(tape.choose(6, "nmem")):
-            name = tape.pick(MEMBERS, "mname")
+        plan = []
+        if tape.choose(4, "chain") == 0:
+            # members that only make sense in order: symbolic-link members
+            # whose targets stay inside the destination when read as text, and
+            # later members named through them
+            depth = 1 + tape.choose(3, "chain_d")
+            plan = [("a", "."), ("c", "a/.."), ("d", "c/..")][:depth]
+            via = plan[-1][0]
+            plan.append((via + "/" + tape.pick(
+                ("escape5.txt", "existing.txt", "outside_sentinel.txt",
+                 "existingdir/inner.txt", "recv/existing.txt"), "chain_f"),
+                None))
+        for i in range(len(plan) + tape.choose(6, "nmem")):
+            link_to = None
+            if i < len(plan):
+                name, link_to = plan[i]
+            else:
+                name = tape.pick(MEMBERS, "mname")
+                if tape.choose(8, "aslink") == 0 and not name.endswith("/"):
+                    link_to = tape.pick(("..", ".", "../..", "/", "sub/..",
+                                         "../existingdir", "existing.txt",
+                                         "../existing.txt"), "lto")
             zi = zipfile.ZipInfo(name)
             mode = tape.pick((0o644, 0o755, 0o600, 0, 0o777, 0o4755), "mmode")
             data = tape.blob(tape.choose(50, "mlen"), i)
-            if name == "link":
+            if link_to is not None:
+                zi.external_attr = (stat.S_IFLNK | 0o777) << 16
+                data = link_to.encode()
+            elif name == "link":
                 zi.external_attr = (stat.S_IFLNK | 0o777) << 16
                 data = b"../outside_sentinel.txt"
             elif name.endswith("/"):
